@@ -51,18 +51,43 @@ def run(ctx):
 
 def noci_fb(ctx, s: Sib):
     e = s.E("noci", "_calc_force_bias")
-    up, dn = e.var("fb_up"), e.var("fb_dn")
-    ug, dg = e.var("up_greens"), e.var("dn_greens")
-    if None in (up, dn, ug, dg):
-        raise AnalysisError("noci._calc_force_bias: fb_up / fb_dn vanished")
+    r = strip_wrappers(e.result)
+    m = m_binop(r, "+")
+    ctx.ob("SYM-1", "noci._calc_force_bias: returns the sum of an up-spin and a down-spin contribution", m is not None,
+           "a + b" if m is not None else f"returns {show(r, maxdepth=2)[:80]}", e.fi)
+    if m is None:
+        return
+
+    def spin_of(t):
+        """(spin index of rot_chol used, the Green's-function operand) of one contribution"""
+        sp, g = None, None
+        for x in subterms(t):
+            if x.op == "call" and array_fn(x) == "einsum":
+                allp = call_parts(x)[1]
+                ops = allp[1:]
+                spec = allp[0].args[0] if allp and allp[0].op == "const" and isinstance(allp[0].args[0], str) else ""
+                subs = spec.replace(" ", "").split("->")[0].split(",")
+                for i, o in enumerate(ops):
+                    o = strip_wrappers(o)
+                    if o.op == "getitem" and o.args[0] is key(HD, "rot_chol") and o.args[1].op == "const":
+                        sp = o.args[1].args[0]
+                        # the Green's functions: the other operand that carries the two orbital indices of rot_chol
+                        mine = subs[i] if i < len(subs) else ""
+                        gs = [strip_wrappers(y) for j, y in enumerate(ops) if j != i and j < len(subs)
+                              and len(subs[j]) >= 2 and set(subs[j][-2:]) <= set(mine)]
+                        g = gs[0] if len(gs) == 1 else None
+        return sp, g
+
+    (sa, ga), (sb, gb) = spin_of(m[0]), spin_of(m[1])
+    if {sa, sb} != {0, 1} or ga is None or gb is None:
+        ctx.ob("SYM-1", "noci._calc_force_bias: the down contribution mirrors the up contribution", False,
+               f"contributions use rot_chol[{sa}] and rot_chol[{sb}]; Green's-function operands "
+               f"{'found' if ga is not None and gb is not None else 'not identified'}", e.fi)
+        return
+    up, dn, ug, dg = (m[0], m[1], ga, gb) if sa == 0 else (m[1], m[0], gb, ga)
     to_dn = {key(HD, "rot_chol", 0): key(HD, "rot_chol", 1), ug: dg}
     s.cmp("SYM-1", "noci._calc_force_bias: the down contribution mirrors the up contribution", up, dn, e.fi,
           to_dn, hyp_b={}, frame=e.frame, what="rot_chol[0] -> rot_chol[1], up Green's functions -> down")
-    r = strip_wrappers(e.result)
-    m = m_binop(r, "+")
-    ok = m is not None and {strip_wrappers(m[0]).uid, strip_wrappers(m[1]).uid} == {up.uid, dn.uid}
-    ctx.ob("SYM-1", "noci._calc_force_bias: returns fb_up + fb_dn", ok, "sum of the two spin contributions"
-           if ok else f"returns {show(r, maxdepth=2)[:80]}", e.fi)
 
 
 def cotangent(ctx):
